@@ -415,6 +415,7 @@ def sum_chi2_ppf(x, weights=(0,1)):
     # A little clunky, but we want to handle x = 0.5, and x = [2, 3, 4]
     # correctly. So if x is a scalar, we record that fact so we can return a
     # scalar on output.
+    scalar_input = False
     if numpy.isscalar(x):
         scalar_input = True
     # Convert x into an array, so we can index it easily.
